@@ -458,6 +458,15 @@ func fieldStores(a ssa.Value) map[string][]ssa.Value {
 					n := fieldName(fa.X, fa.Field)
 					out[n] = append(out[n], st.Val)
 				}
+				// the members of a struct held by value (`s.registry.names`), under their own names
+				if inner, ok := rr.(*ssa.FieldAddr); ok && inner.X == ssa.Value(fa) {
+					if _, isStruct := fa.Type().Underlying().(*types.Pointer).Elem().Underlying().(*types.Struct); isStruct {
+						for k, vs := range fieldStores(fa) {
+							out[k] = append(out[k], vs...)
+						}
+						break
+					}
+				}
 			}
 		}
 	}
